@@ -24,6 +24,7 @@ type Config struct {
 	GenFailAt      int   `json:"gen_fail_at,omitempty"` // >0: the n-th relay allocation attempt fails
 	CallbackSleepS int   `json:"callback_sleep_s,omitempty"`
 	SlowCallback   string `json:"slow_callback,omitempty"` // which lifecycle callback sleeps
+	DualStack      bool  `json:"dual_stack,omitempty"`  // the UDP listener is the dual-stack wildcard socket [::]:3478 and serves both families
 	ServerV6       bool  `json:"server_v6,omitempty"`   // the UDP listener is bound to an IPv6 address
 	Stream         []int `json:"stream_clients,omitempty"` // client indices that talk to the server over a TCP control connection
 }
@@ -79,6 +80,12 @@ var (
 		{IP: net.IPv4(10, 1, 0, 3), Port: 6000, User: 3},
 		{IP: net.ParseIP("fd00:1::1"), Port: 5000, User: 1}, // IPv6 client (needs ServerV6)
 		{IP: net.ParseIP("fd00:1::2"), Port: 5001, User: 0},
+		// IPv6 clients whose address bytes resemble an IPv4 client's (need DualStack): the
+		// first four bytes, the last four bytes, and the IPv4-mapped prefix with another host.
+		{IP: net.ParseIP("0a01:0001::"), Port: 5000, User: 1},  // first 4 bytes = 10.1.0.1 (client 0)
+		{IP: net.ParseIP("0a01:0002::"), Port: 5000, User: 0},  // first 4 bytes = 10.1.0.2 (client 2)
+		{IP: net.ParseIP("::0a01:0001"), Port: 5001, User: 3},  // last 4 bytes = 10.1.0.1 (client 1), IPv4-compatible form
+		{IP: net.ParseIP("::fffe:0a01:0003"), Port: 6000, User: 1}, // one bit off the IPv4-mapped form of client 3
 	}
 
 	PeerPool = []*net.UDPAddr{
@@ -146,6 +153,11 @@ func (c *Config) inboundMTU() int {
 	}
 
 	return c.InboundMTU
+}
+
+// v6Client reports whether client i of a dual-stack world has an IPv6 address.
+func (c *Config) v6Client(i int) bool {
+	return c.DualStack && i >= 0 && i < len(c.Clients) && ClientPool[c.Clients[i]%len(ClientPool)].IP.To4() == nil
 }
 
 func (c *Config) isStream(client int) bool {
